@@ -533,6 +533,7 @@ type housePre struct {
 	hasGrant bool
 	part     obtypes.OrderBookParticipation
 	hasPart  bool
+	worst    sdkmath.Int // worst-case loss of the current round recomputed from the exposures: max(0, max_o (E_o + B_o − Σ B))
 }
 
 func captureHouse(e *Env, granter, grantee, kind int, market string, idx uint64) housePre {
@@ -543,6 +544,18 @@ func captureHouse(e *Env, granter, grantee, kind int, market string, idx uint64)
 		p.limit, p.hasGrant = grantLimit(e, granter, grantee, kind)
 	}
 	p.part, p.hasPart = e.App.OrderbookKeeper.GetOrderBookParticipation(e.Ctx, market, idx)
+	p.worst = sdkmath.ZeroInt()
+	if exps, err := e.App.OrderbookKeeper.GetExposureByOrderBookAndParticipationIndex(e.Ctx, market, idx); err == nil {
+		total := sdkmath.ZeroInt()
+		for _, x := range exps {
+			total = total.Add(x.BetAmount)
+		}
+		for _, x := range exps {
+			if l := x.Exposure.Add(x.BetAmount).Sub(total); l.GT(p.worst) {
+				p.worst = l
+			}
+		}
+	}
 	return p
 }
 
@@ -577,6 +590,9 @@ func withdrawMonitor(out *Out, h int, e *Env, ix *coreIx, pre housePre, creator,
 	}
 	if w.GT(pre.part.CurrentRoundLiquidity.Sub(maxLoss)) {
 		failOnce(out, h, "C09", "withdraw_bound", "withdraw", key, fmt.Sprintf("withdrew %s with current-round liquidity %s and worst-case loss %s", w, pre.part.CurrentRoundLiquidity, maxLoss))
+	}
+	if w.GT(pre.part.CurrentRoundLiquidity.Sub(pre.worst)) {
+		failOnce(out, h, "C09", "withdraw_bound", "worst-case-loss-understated", key, fmt.Sprintf("withdrew %s with current-round liquidity %s while the worst-case loss of the round, recomputed from the exposures, is %s", w, pre.part.CurrentRoundLiquidity, pre.worst))
 	}
 	if pre.part.IsSettled {
 		failOnce(out, h, "C09", "withdraw_unsettled_only", "withdraw", key, "withdrawal from a settled participation")
